@@ -186,10 +186,32 @@ fn kind_key(text: &str, off: u32) -> String {
     t.parent_ancestors().take(3).map(|n| format!("{:?}", n.kind())).collect::<Vec<_>>().join("<")
 }
 
+
+/// A library and several byte-identical client modules: every reference of a library symbol
+/// sits at the same offsets in each client (copied / templated modules).
+pub fn templated_workspace() -> Workspace {
+    let lib = "pub type Shape {\n  Circle(radius: Int)\n  Square(side: Int)\n}\n\npub const unit = 1\n\npub fn area(s: Shape) -> Int {\n  case s {\n    Circle(radius: r) -> r * r * 3\n    Square(side: x) -> x * x\n  }\n}\n";
+    let client = "import lib.{type Shape, Circle, area}\nimport lib as l\n\npub fn run(s: Shape) -> Int {\n  let c = Circle(radius: l.unit)\n  area(c) + l.area(s) + c.radius\n}\n";
+    Workspace {
+        packages: vec![WsPackage {
+            name: "app".into(),
+            files: vec![
+                WsFile { rel: "src/lib.gleam".into(), text: lib.into() },
+                WsFile { rel: "src/client_a.gleam".into(), text: client.into() },
+                WsFile { rel: "src/client_b.gleam".into(), text: client.into() },
+                WsFile { rel: "src/deep/client_c.gleam".into(), text: client.into() },
+            ],
+            deps: vec![],
+            is_local: true,
+        }],
+    }
+}
+
 pub fn run_c07(tier: Tier) -> i32 {
     let mut rep = Report::new("C07", tier);
     let mut wss = base_workspaces();
     wss.push(("c08".into(), c08_workspace().0));
+    wss.push(("templated".into(), templated_workspace()));
     let mut accepted = 0u64;
     let mut kinds_accepted: BTreeSet<String> = BTreeSet::new();
     // generated scoping programs: shadowing is the norm there, so a rename that captures or
@@ -334,6 +356,7 @@ pub fn replay_c07(w: &Value) -> Vec<String> {
     }
     let mut wss = base_workspaces();
     wss.push(("c08".into(), c08_workspace().0));
+    wss.push(("templated".into(), templated_workspace()));
     let Some(ws) = find_ws(&wss, w["workspace"].as_str().unwrap_or("")) else { return vec!["unknown workspace".into()] };
     let files = ws.files();
     let Some(fi) = files.iter().position(|f| Some(f.rel.as_str()) == w["file"].as_str()) else { return vec!["unknown file".into()] };
